@@ -8,7 +8,8 @@
    frame without outcome, ACKED only if it was delivered; pop / sync of the event queue).
    [n_dbytes] / [n_ends]: concatenation of the bytes / number of end markers reported to the application. *)
 From AQ Require Import lib.Base model.RangeSet model.StreamRecv model.StreamSpec model.StreamSend model.NetSys model.NetSysLive
-  proofs.StreamSendP proofs.NetSysP proofs.NetSysP2 proofs.NetSysP3 proofs.NetSysP4 proofs.NetSysP5 proofs.NetSysP6 proofs.NetSysP7.
+  proofs.StreamSendP proofs.NetSysP proofs.NetSysP2 proofs.NetSysP3 proofs.NetSysP4 proofs.NetSysP5 proofs.NetSysP6 proofs.NetSysP7
+  model.NetSysFC gen.C01Consts proofs.NetSysFCP proofs.NetSysFCCode.
 
 (* the bytes reported are a prefix of the bytes written, in every reachable state; the end marker is
    reported at most once and only when a FIN was written and all written bytes have been reported *)
@@ -190,3 +191,47 @@ Theorem event_stream_thm : forall ops s', run_sched net_init ops = Some s' ->
   sched_popped net_init ops ++ n_queue s' = sched_events net_init ops.
 Proof. exact events_from_init. Qed.
 Print Assumptions event_stream_thm.
+
+(* ---------- liveness under a binding connection-level flow-control window (model/NetSysFC.v) ----------
+   [fc_reach b w s]: s is reachable in NetSys + connection credit (initial window w at both ends) by ANY sequence of
+   writes, emits (max_offset = BASE + _remote_max_data - _remote_max_data_used, BASE chosen by b), deliveries of any
+   emitted frame (FLOW_CONTROL_ERROR when used + newly_received > value), ACKED / LOST outcomes, the receiver's
+   MAX_DATA rule (double when used * 2 > value) and arrivals of any advertised MAX_DATA value.
+   [code_fc_base] is read from the source tree on every run (tools/gen/c01_consts.py -> gen/C01Consts.v). *)
+
+(* a lost range below highest_offset is re-emitted whatever the credit is -- also with credit 0 -- and nothing is charged *)
+Theorem retransmission_needs_no_credit_thm : forall w s ms start rstop rest,
+  0 < w -> fc_reach code_fc_base w s -> 0 < ms ->
+  s_pending (n_send (f_net s)) = (start, rstop) :: rest -> start < s_highest (n_send (f_net s)) ->
+  exists d fin s', fc_step code_fc_base s (FEmit ms) = Some (FOk (OFrame start d fin), s') /\ 0 < Zlen d /\
+    Zlen d = Z.min rstop (Z.min (start + ms) (s_highest (n_send (f_net s)) + (f_max s - f_used s))) - start /\
+    (start + Zlen d <= s_highest (n_send (f_net s)) -> f_used s' = f_used s).
+Proof. exact retransmission_needs_no_credit_code. Qed.
+Print Assumptions retransmission_needs_no_credit_thm.
+
+(* the sender never exceeds the receiver's limit: no schedule produces FLOW_CONTROL_ERROR *)
+Theorem no_flow_control_error_thm : forall w s op o s', 0 < w -> fc_reach code_fc_base w s ->
+  fc_step code_fc_base s op = Some (o, s') -> o <> FFlowControlError.
+Proof. exact no_flow_control_error_code. Qed.
+Print Assumptions no_flow_control_error_thm.
+
+(* from EVERY reachable state -- credit exhausted or not, any part of the window lost -- the continuation fc_complete
+   (LOST for the frames without outcome, then rounds: receiver applies its MAX_DATA rule, sender learns the limit, emits
+   with the max_offset the code computes, frame delivered and acknowledged) runs without FLOW_CONTROL_ERROR /
+   FINAL_SIZE_ERROR and ends with every written byte reported, one end marker and is_finished iff a FIN was written *)
+Theorem fair_schedule_completes_fc_thm : forall w s ms, 0 < w -> fc_reach code_fc_base w s -> 0 < ms ->
+  exists s', run_fc code_fc_base s (fc_complete code_fc_base ms s) = Some s' /\
+    n_written (f_net s') = n_written (f_net s) /\ n_dbytes (f_net s') = n_written (f_net s) /\
+    (eof (f_net s) -> n_ends (f_net s') = 1 /\ s_finished (n_send (f_net s')) = true) /\
+    (~ eof (f_net s) -> n_ends (f_net s') = 0 /\ s_finished (n_send (f_net s')) = false).
+Proof. exact fair_schedule_completes_fc_code. Qed.
+Print Assumptions fair_schedule_completes_fc_thm.
+
+(* the twin for BASE = next_offset is false: a reachable state (window 4: write 4 bytes + FIN, emit, the frame is lost)
+   that every schedule not containing the late arrival of the dropped frame leaves unchanged: nothing is ever reported *)
+Theorem fair_schedule_completes_fc_next_refuted_thm :
+  exists w s, 0 < w /\ fc_reach BaseNext w s /\ n_dbytes (f_net s) <> n_written (f_net s) /\
+    forall ops s', ~ In (FDeliver 0) ops -> run_fc BaseNext s ops = Some s' ->
+      s' = s /\ n_dbytes (f_net s') = [] /\ s_finished (n_send (f_net s')) = false.
+Proof. exact fair_schedule_completes_fc_next_refuted. Qed.
+Print Assumptions fair_schedule_completes_fc_next_refuted_thm.
